@@ -1251,10 +1251,15 @@ func (g *evGen) withControl() {
 					peers[i].id = nextID // replaced node: new host id on the same address
 					nextID++
 					cls += "/replaced-node"
-				case y < 78 && len(peers) > 0:
+				case y < 74 && len(peers) > 0:
 					i := r.Intn(len(peers))
 					peers[i].defect = []string{"norack", "nodc", "noid", "notok", "norpc", "rpc0"}[r.Intn(6)]
 					cls += "/invalid-row-" + peers[i].defect
+				case y < 78 && len(peers) > 0:
+					// the node is reported in another data centre: it becomes rejected by the host filter (dc3), or accepted
+					i := r.Intn(len(peers))
+					peers[i].dc = 1 + (peers[i].dc+r.Intn(2))%3
+					cls += fmt.Sprintf("/data-centre-change-to-dc%d", peers[i].dc)
 				case y < 84 && len(peers) > 0:
 					i := r.Intn(len(peers))
 					peers[i].defect = ""
